@@ -39,15 +39,17 @@ def reshape_rechunk(inshape, outshape, inchunks, disallow_dimension_expansion=Fa
     mapper_in, one_dimensions = {}, []
 
     while ii >= 0 or oi >= 0:
-        if inshape[ii] == outshape[oi]:
+        # Once one of the shapes is used up, the remaining dimensions of the
+        # other one all have length 1 (a negative index must not wrap around)
+        din = inshape[ii] if ii >= 0 else None
+        dout = outshape[oi] if oi >= 0 else None
+        if din == dout:
             result_inchunks[ii] = inchunks[ii]
             result_outchunks[oi] = inchunks[ii]
             mapper_in[ii] = oi
             ii -= 1
             oi -= 1
             continue
-        din = inshape[ii]
-        dout = outshape[oi]
         if din == 1:
             result_inchunks[ii] = (1,)
             ii -= 1
